@@ -101,17 +101,22 @@ def user_op(src):
 
 
 def _stmts(block):
-    """top-level statements of a block; a compound statement `for (..) {..}` / `{..}` ends at its closing brace"""
-    depth, cur, out = 0, "", []
+    """top-level statements of a block (without the terminating `;`); a compound statement `for (..) {..}` / `if (..) {..}` /
+    `{..}` ends at its closing brace, a braced initialiser (`= {..}`, `name{..}`) does not end the statement"""
+    depth, cur, out, compound = 0, "", [], False
     for c in block:
         if c in "([{":
+            if c == "{" and depth == 0:
+                before = cur.rstrip()
+                compound = before == "" or before.endswith(")") or re.search(r"\b(else|do)$", before) is not None
             depth += 1
         elif c in ")]}":
             depth -= 1
         cur += c
-        if depth == 0 and (c == ";" or (c == "}" and not re.match(r"\s*(=|\w+ ?=)", cur[::-1]) and re.search(r"\)\s*\{|^\s*\{|\belse\s*\{|\bdo\s*\{", cur))):
+        if depth == 0 and (c == ";" or (c == "}" and compound)):
             out.append(re.sub(r"\s+", " ", cur).strip().rstrip(";").strip())
             cur = ""
+            compound = False
     if cur.strip():
         out.append(re.sub(r"\s+", " ", cur).strip())
     return [x for x in out if x]
@@ -228,7 +233,7 @@ def user_op_body(a_in, a_inout, a_len, body):
 
     def call(t):
         t = _nows(t)
-        mm = re.fullmatch(r"(%s|BinaryFunction\(\)|BinaryFunction\{\})\((.*)\)" % IDENT_, t)
+        mm = re.fullmatch(r"(BinaryFunction\(\)|BinaryFunction\{\}|%s)\((.*)\)" % IDENT_, t)
         if not mm:
             fail("no functor call: " + t)
         f = mm.group(1)
@@ -289,9 +294,9 @@ def user_op_body(a_in, a_inout, a_len, body):
 def split_top(text, sep=","):
     depth, cur, parts = 0, "", []
     for c in text:
-        if c in "<([":
+        if c in "<([{":
             depth += 1
-        elif c in ">)]":
+        elif c in ">)]}":
             depth -= 1
         if c == sep and depth == 0:
             parts.append(cur)
@@ -489,20 +494,7 @@ class _TypeProg:
 
     @staticmethod
     def statements(block):
-        depth, cur, out = 0, "", []
-        for c in block:
-            if c in "([{":
-                depth += 1
-            elif c in ")]}":
-                depth -= 1
-            if c == ";" and depth == 0:
-                out.append(re.sub(r"\s+", " ", cur).strip())
-                cur = ""
-            else:
-                cur += c
-        if cur.strip():
-            out.append(re.sub(r"\s+", " ", cur).strip())
-        return [x for x in out if x]
+        return _stmts(block)
 
     def is_self(self, t):
         t = _nows(t)
@@ -819,9 +811,15 @@ WRAPPERS = ["send_3", "isend_3", "recv_4", "irecv_3", "broadcast_3", "ibroadcast
             "allreduce_1", "iallreduce_2", "iallreduce_1", "allreduce_2", "sum_1", "sum_2", "prod_1", "prod_2", "min_1",
             "min_2", "max_1", "max_2", "rrecv_4", "barrier_0", "ibarrier_0"]
 
-RRECV_EXTRA = ["MPI_Status_status", "MPI_Message_message", "if(status==MPI_STATUS_IGNORE)status=&_status", "intsize",
-               "mpi_data.resize(size)"]
 ALLREDUCE2_EXTRA = ["Type*out=newType[len]", "std::copy(out,out+len,inout)", "delete[]out"]
+
+# R5: the meaning of the int / status parameters is fixed by the public signature (callers pass them by position), not by their names
+PARAM_ROLES = {
+    "send_3": {2: "peer", 3: "tag"}, "isend_3": {2: "peer", 3: "tag"}, "recv_4": {2: "peer", 3: "tag", 4: "status"},
+    "irecv_3": {2: "peer", 3: "tag"}, "rrecv_4": {2: "peer", 3: "tag", 4: "status"},
+    "broadcast_3": {3: "root"}, "ibroadcast_2": {2: "root"}, "gather_4": {4: "root"}, "igather_3": {3: "root"},
+    "gatherv_6": {6: "root"}, "scatter_4": {4: "root"}, "iscatter_3": {3: "root"}, "scatterv_6": {6: "root"},
+}
 
 
 def mpi_class_body(src):
@@ -857,10 +855,26 @@ def body_statements(body):
 
 
 class _Wrapper:
+    """symbolic execution of one member function body of Communication<MPI_Comm>.
+    R5: locals are followed by what they denote, not by their names (the future, the MPIData views, the local result object, the int
+    that holds a delegation's return value, the temporary array of the in-place allreduce, the status / message / count locals of
+    rrecv); `const`, `this->`, redundant parentheses are dropped; `(me==root) * x` = `(me==root) ? x : 0`; std::copy = std::copy_n;
+    the status pointer of rrecv may be defaulted by `if (p == MPI_STATUS_IGNORE) p = &local;` or by a conditional expression
+    initialising a new pointer."""
+
     def __init__(self, name, params, tparams, body):
         self.name, self.params, self.tparams = "%s_%d" % (name, len(params)), params, tparams
         self.pos = {p: k + 1 for k, (t, p) in enumerate(params)}
         self.ptype = {p: _nows(t) for (t, p) in params}
+        roles = PARAM_ROLES.get(self.name, {})
+        self.role = {}
+        for (t, p) in params:
+            r = roles.get(self.pos[p])
+            if r:
+                want = "MPI_Status*" if r == "status" else "int"
+                if self.ptype[p] != want:
+                    self.fail("parameter %d (%s) is not of type %s" % (self.pos[p], r, want))
+                self.role[p] = r
         self.obj = {}       # local object / MPIData view -> parameter position it denotes (0 = local result object)
         self.ints = {}      # local int -> count expression (num, den)
         self.calls = []
@@ -868,6 +882,19 @@ class _Wrapper:
         self.guard = None
         self.extra = []
         self.same = []
+        self.fut = None     # name of the MPIFuture local
+        self.locals = set()  # local objects of a template parameter type (`T lvalue_data(...)`, `T out`)
+        self.retvar = None  # int holding the delegation's return value
+        self.temp = None    # temporary array of allreduce_2
+        self.returned = None
+        # rrecv
+        self.statusobj, self.msg, self.cntvar = set(), set(), set()
+        self.sptr = {}      # MPI_Status* variable -> "param" (the caller's pointer, maybe MPI_STATUS_IGNORE) | "defaulted"
+        for p, r in self.role.items():
+            if r == "status":
+                self.sptr[p] = "param"
+        self.events = []
+        self.order = []
         self.stmts = body_statements(body)
         for st in self.stmts:
             self.step(st)
@@ -892,27 +919,50 @@ class _Wrapper:
             return self.pos[name]
         self.fail("object not understood: " + name)
 
+    def is_root_test(self, t):
+        t = _unparen(t)
+        m = re.fullmatch(r"(%s)==(%s)" % (IDENT_, IDENT_), t)
+        return bool(m and sorted(self.role.get(x, x) for x in m.groups()) == ["me", "root"])
+
     def atom(self, t):
-        t = _nows(t)
+        t = _unparen(_nows(t))
         if re.fullmatch(r"\d+", t):
             return [".lit %s" % t], []
-        if t in ("(me==root)", "(root==me)"):
+        if self.is_root_test(t):
             return [".isRoot"], []
+        # (me==root) ? x : 0   ==   (me==root) * x
+        q = t.find("?")
+        if q > 0 and self.is_root_test(t[:q]):
+            rest = t[q + 1:]
+            d, k = 0, None
+            for j, ch in enumerate(rest):
+                if ch in "(<[":
+                    d += 1
+                elif ch in ")>]":
+                    d -= 1
+                elif ch == ":" and d == 0 and rest[j - 1:j] != ":" and rest[j + 1:j + 2] != ":":
+                    k = j
+                    break
+            if k is not None and _unparen(rest[k + 1:]) == "0":
+                n2, d2 = self.cexpr(rest[:k])
+                if d2:
+                    self.fail("quotient inside a conditional count (integer division does not commute with the root test): " + t)
+                return [".isRoot"] + n2, []
         if t == "procs":
             return [".procs"], []
-        m = re.fullmatch(r"(%s)\.size\(\)" % IDENT_, t)
+        m = re.fullmatch(r"(?:static_cast<int>|int)?\(?(%s)\.size\(\)\)?" % IDENT_, t)
         if m and m.group(1) in self.obj:
             return [".sizeOf %d" % self.obj[m.group(1)]], []
         if t in self.ints:
             return self.ints[t]
-        if t in self.pos and self.ptype[t] == "int" and t not in ("root", "tag", "dest_rank", "source_rank"):
+        if t in self.pos and self.ptype[t] == "int" and t not in self.role:
             return [".par %d" % self.pos[t]], []
         self.fail("count expression not understood: " + t)
 
     def cexpr(self, text):
         """left-associative products / quotients of atoms: a*b/c -> (a*b)/c; the factors of a product are sorted"""
         toks, depth, cur = [], 0, ""
-        for c in _nows(text):
+        for c in _unparen(_nows(text)):
             if c == "(":
                 depth += 1
             elif c == ")":
@@ -945,11 +995,11 @@ class _Wrapper:
         t = _nows(a)
         if t == "communicator":
             return ".comm"
-        if t == "&future.req_":
+        if self.fut and t == "&%s.req_" % self.fut:
             return ".req"
         if t == "MPI_IN_PLACE":
             return ".inPlace"
-        if t == "status" and self.ptype.get("status") == "MPI_Status*":
+        if self.role.get(t) == "status":
             return ".status"
         m = re.fullmatch(r"(%s)\.(ptr|size|type)\(\)" % IDENT_, t)
         if m and m.group(1) in self.obj:
@@ -973,12 +1023,8 @@ class _Wrapper:
                 return ".arr %d" % self.pos[p]
             if pt.endswith("*") and pt != "MPI_Status*":
                 return ".buf %d" % self.pos[p]
-            if pt == "int" and p == "root":
-                return ".root"
-            if pt == "int" and p in ("dest_rank", "source_rank"):
-                return ".peer"
-            if pt == "int" and p == "tag":
-                return ".tag"
+            if self.role.get(p) in ("root", "peer", "tag"):
+                return "." + self.role[p]
         m = re.fullmatch(r"&(%s)" % IDENT_, t)
         if m and m.group(1) in self.obj:
             return ".buf %d" % self.obj[m.group(1)]
@@ -996,18 +1042,114 @@ class _Wrapper:
             return ".op (.named %s) %s" % (lean_str(self.tnum(e)), lean_str(self.tnum(m.group(2))))
         return ".cnt " + self.cstr(self.cexpr(a))
 
+    # --- rrecv: the status pointer, the message handle, the count -----------------------------------
+    def rr_arg(self, a):
+        t = _nows(a)
+        if t in self.sptr:
+            return "status" if self.sptr[t] == "defaulted" else "status-possibly-MPI_STATUS_IGNORE"
+        m = re.fullmatch(r"&(%s)" % IDENT_, t)
+        if m and m.group(1) in self.msg:
+            return "&message"
+        if m and m.group(1) in self.cntvar:
+            return "&count"
+        if m and m.group(1) in self.statusobj:
+            return "&localstatus"
+        if t in self.cntvar:
+            return "count"
+        if self.role.get(t) in ("peer", "tag"):
+            return self.role[t]
+        m = re.fullmatch(r"(%s)\.(ptr|size|type)\(\)" % IDENT_, t)
+        if m and m.group(1) in self.obj:
+            return "view%d.%s()" % (self.obj[m.group(1)], m.group(2))
+        return t
+
+    def rr_default(self, cond, a, b):
+        """`cond ? a : b` with cond a comparison of a status pointer with MPI_STATUS_IGNORE -> True if the value is
+        `the caller's pointer, or the address of a local status object when that is MPI_STATUS_IGNORE`"""
+        m = re.fullmatch(r"(%s)(==|!=)(%s)" % (IDENT_, IDENT_), _unparen(_nows(cond)))
+        if not m:
+            return None
+        x, op, y = m.groups()
+        if y == "MPI_STATUS_IGNORE":
+            pv = x
+        elif x == "MPI_STATUS_IGNORE":
+            pv = y
+        else:
+            return None
+        if self.sptr.get(pv) != "param":
+            return None
+        a, b = _unparen(_nows(a)), _unparen(_nows(b))
+        if op == "!=":
+            a, b = b, a
+        ma = re.fullmatch(r"&(%s)" % IDENT_, a)
+        return bool(ma and ma.group(1) in self.statusobj and b == pv)
+
+    def step_rrecv(self, st):
+        m = re.fullmatch(r"MPI_Status (%s)" % IDENT_, st)
+        if m:
+            self.statusobj.add(m.group(1))
+            return True
+        m = re.fullmatch(r"MPI_Message (%s)" % IDENT_, st)
+        if m:
+            self.msg.add(m.group(1))
+            return True
+        m = re.fullmatch(r"int (%s)(?: ?= ?0| ?\{ ?0? ?\})?" % IDENT_, st)
+        if m:
+            self.cntvar.add(m.group(1))
+            return True
+        # if (p == MPI_STATUS_IGNORE) p = &local;
+        m = re.fullmatch(r"if ?\((.*?)\) ?\{? ?(%s) ?= ?& ?(%s) ?;? ?\}?" % (IDENT_, IDENT_), st)
+        if m:
+            c = re.fullmatch(r"(%s)==(%s)" % (IDENT_, IDENT_), _unparen(_nows(m.group(1))))
+            pv = m.group(2)
+            if c and sorted(c.groups()) == sorted([pv, "MPI_STATUS_IGNORE"]) and self.sptr.get(pv) == "param" and m.group(3) in self.statusobj:
+                self.sptr[pv] = "defaulted"
+                return True
+            self.fail("defaulting of the status pointer not understood: " + st)
+        # MPI_Status* p = status;   /   MPI_Status* p = (status == MPI_STATUS_IGNORE) ? &local : status;
+        m = re.fullmatch(r"(?:MPI_Status ?\*|auto ?\*?) ?(%s) ?= ?(.*)" % IDENT_, st)
+        if m:
+            v = _unparen(_nows(m.group(2)))
+            if v in self.sptr:
+                self.sptr[m.group(1)] = self.sptr[v]
+                return True
+            q = v.find("?")
+            if q > 0 and ":" in v[q:]:
+                k = v.index(":", q)
+                if self.rr_default(v[:q], v[q + 1:k], v[k + 1:]):
+                    self.sptr[m.group(1)] = "defaulted"
+                    return True
+            self.fail("status pointer not understood: " + st)
+        m = re.fullmatch(r"(%s)\.resize ?\((.*)\)" % IDENT_, st)
+        if m and m.group(1) in self.obj:
+            self.events.append(("resize", ["view%d" % self.obj[m.group(1)], self.rr_arg(m.group(2))]))
+            return True
+        m = re.fullmatch(r"(MPI_Mprobe|MPI_Get_count|MPI_Mrecv) ?\((.*)\)", st)
+        if m:
+            self.events.append((m.group(1), [self.rr_arg(a) for a in split_top(m.group(2))]))
+            return True
+        return False
+
     def step(self, st):
         if not st:
             return
+        # qualifiers / spellings that do not change the meaning
+        st = re.sub(r"\bthis ?-> ?", "", st)
+        st = re.sub(r"^(?:const )+", "", st)
+        st = re.sub(r"^(int|auto|MPI_Status ?\*|%s) const " % IDENT_, r"\1 ", st)
+        st = re.sub(r"^auto ?&& ", "auto ", st) if re.match(r"auto ?&& %s ?= ?(future|%s)\.get" % (IDENT_, IDENT_), st) else st
         m = re.fullmatch(r"assert ?\( ?(%s)\.type\(\) ?== ?(%s)\.type\(\) ?\)" % (IDENT_, IDENT_), st)
         if m and m.group(1) in self.obj and m.group(2) in self.obj:
             self.same.append(tuple(sorted((self.obj[m.group(1)], self.obj[m.group(2)]))))   # asserted: same datatype
             return
         if re.fullmatch(r"(static_)?assert ?\(.*\)", st):
             return
-        m = re.fullmatch(r"MPIFuture<[^()]*> future ?\((.*)\)", st)
+        m = re.fullmatch(r"MPIFuture<[^()]*> (%s) ?[({](.*)[)}]" % IDENT_, st)
         if m:
-            args = split_top(m.group(1))
+            if self.fut:
+                self.fail("two futures")
+            self.fut = m.group(1)
+            args = split_top(m.group(2))
             if len(args) == 1 and _nows(args[0]) == "true":
                 return
             self.obj["future.data"] = self.objpos(args[0])
@@ -1016,9 +1158,9 @@ class _Wrapper:
             elif len(args) != 1:
                 self.fail("future constructed from %d objects" % len(args))
             return
-        m = re.fullmatch(r"auto (%s) ?= ?future\.(get_mpidata|get_send_mpidata) ?\( ?\)" % IDENT_, st)
-        if m:
-            key = "future.data" if m.group(2) == "get_mpidata" else "future.send"
+        m = re.fullmatch(r"auto (%s) ?= ?(%s)\.(get_mpidata|get_send_mpidata) ?\( ?\)" % (IDENT_, IDENT_), st)
+        if m and m.group(2) == self.fut:
+            key = "future.data" if m.group(3) == "get_mpidata" else "future.send"
             if key not in self.obj:
                 self.fail("future has no such data: " + st)
             self.obj[m.group(1)] = self.obj[key]
@@ -1027,48 +1169,82 @@ class _Wrapper:
         if m:
             self.obj[m.group(1)] = self.objpos(m.group(2))
             return
-        m = re.fullmatch(r"(%s) (%s) ?(?:\((.*)\)|= ?(.*))" % (IDENT_, IDENT_), st)
-        if m and m.group(1) in self.tparams and (m.group(3) or m.group(4)):
-            self.obj[m.group(2)] = self.objpos(m.group(3) or m.group(4))      # `T lvalue_data(std::forward<T>(data))`
+        m = re.fullmatch(r"(%s) (%s) ?(?:\((.*)\)|\{(.*)\}|= ?(.*))" % (IDENT_, IDENT_), st)
+        if m and m.group(1) in self.tparams and (m.group(3) or m.group(4) or m.group(5)):
+            self.obj[m.group(2)] = self.objpos(m.group(3) or m.group(4) or m.group(5))      # `T lvalue_data(std::forward<T>(data))`
+            self.locals.add(m.group(2))
             return
         m = re.fullmatch(r"(%s) (%s)" % (IDENT_, IDENT_), st)
         if m and m.group(1) in self.tparams:
             self.obj[m.group(2)] = 0                                          # a local result object `T out;`
+            self.locals.add(m.group(2))
             return
-        m = re.fullmatch(r"int (%s) ?= ?(.*)" % IDENT_, st)
+        if self.name == "rrecv_4" and self.step_rrecv(st):
+            return
+        m = re.fullmatch(r"(?:int|auto) (%s) ?= ?(.*)" % IDENT_, st)
         if m and not re.match(r"(MPI_|allreduce)", m.group(2)):
             self.ints[m.group(1)] = self.cexpr(m.group(2))
             return
-        m = re.fullmatch(r"if ?\( ?(%s)\.size\(\) ?== ?0 ?\) ?DUNE_THROW ?\( ?ParallelError.*\)" % IDENT_, st)
-        if m and m.group(1) in self.obj:
-            if self.calls:
-                self.fail("guard after the MPI call")
-            self.guard = "throwIfEmpty %d" % self.obj[m.group(1)]
-            return
+        m = re.fullmatch(r"if ?\( ?(.*?) ?\) ?\{? ?DUNE_THROW ?\( ?ParallelError.*\) ?;? ?\}?", st)
+        if m:
+            c = _nows(m.group(1))
+            cm = re.fullmatch(r"(%s)\.size\(\)==0|0==(%s)\.size\(\)|!(%s)\.size\(\)|(%s)\.size\(\)<=0|(%s)\.size\(\)<1" % ((IDENT_,) * 5), c)
+            v = cm and [g for g in cm.groups() if g][0]
+            if v and v in self.obj:
+                if self.calls:
+                    self.fail("guard after the MPI call")
+                self.guard = "throwIfEmpty %d" % self.obj[v]
+                return
         m = re.fullmatch(r"(?:return )?(MPI_\w+) ?\((.*)\)", st)
         if m:
-            if m.group(1) in ("MPI_Mprobe", "MPI_Get_count", "MPI_Mrecv"):
-                self.calls.append((m.group(1), [_nows(a) for a in split_top(m.group(2))]))
-            else:
-                self.calls.append((m.group(1), [self.arg(a) for a in split_top(m.group(2))]))
+            if self.deleg and self.name != "allreduce_2":
+                self.fail("delegation and an MPI call")
+            self.calls.append((m.group(1), [self.arg(a) for a in split_top(m.group(2))]))
             return
-        m = re.fullmatch(r"(?:return |int ret ?= ?)?allreduce ?<(.*)> ?\((.*)\)", st)
+        m = re.fullmatch(r"(return |int (%s) ?= ?)?allreduce ?<(.*)> ?\((.*)\)" % IDENT_, st)
         if m:
             if self.deleg:
                 self.fail("two delegations")
-            self.deleg = (self.tnum(m.group(1)), [self.arg(a) for a in split_top(m.group(2))])
+            self.deleg = (self.tnum(m.group(3)), [self.arg(a) for a in split_top(m.group(4))])
+            self.order.append("deleg")
+            if m.group(2):
+                self.retvar = m.group(2)
             return
-        if re.fullmatch(r"return (future|lvalue_data|out|ret)", st):
+        m = re.fullmatch(r"return (%s)" % IDENT_, st)
+        if m and m.group(1) in ({self.fut, self.retvar} | self.locals) - {None}:
+            if self.returned:
+                self.fail("two return statements")
+            self.returned = m.group(1)
             return
-        if self.name == "allreduce_2" and _nows(st) in ALLREDUCE2_EXTRA:
-            self.extra.append(_nows(st))
-            if _nows(st).startswith("Type*out="):
-                self.obj["*out"] = 0                                          # temporary array
-            return
-        if self.name == "rrecv_4" and _nows(st) in RRECV_EXTRA:
-            self.extra.append(_nows(st))
-            return
+        if self.name == "allreduce_2":
+            c = self.canon_allreduce2(st)
+            if c in ALLREDUCE2_EXTRA:
+                self.extra.append(c)
+                self.order.append(c)
+                return
         self.fail("statement outside the grammar: " + st)
+
+    def canon_allreduce2(self, st):
+        """temporary array / copy back / release of the in-place allreduce with the temporary and the parameters renamed to the
+        names used in ALLREDUCE2_EXTRA (inout, len by position)"""
+        t = _nows(st)
+        if len(self.params) != 2:
+            return t
+        p_inout, p_len = self.params[0][1], self.params[1][1]
+        m = re.fullmatch(r"(%s)\*(%s)=new(%s)\[(%s)\]" % ((IDENT_,) * 4), t)
+        if m and m.group(1) == m.group(3) and m.group(1) in self.tparams and m.group(4) == p_len and self.temp is None \
+                and self.ptype[p_inout] == m.group(1) + "*":
+            self.temp = m.group(2)
+            self.obj["*" + self.temp] = 0
+            return "Type*out=newType[len]"
+        if self.temp:
+            x = re.escape(self.temp)
+            if re.fullmatch(r"std::copy\(%s,%s\+%s,%s\)" % (x, x, re.escape(p_len), re.escape(p_inout)), t) or \
+                    re.fullmatch(r"std::copy_n\(%s,%s,%s\)" % (x, re.escape(p_len), re.escape(p_inout)), t):
+                return "std::copy(out,out+len,inout)"
+            if re.fullmatch(r"delete\[\]%s" % x, t):
+                return "delete[]out"
+        return t
 
     def ptrs(self):
         out = []
@@ -1084,19 +1260,34 @@ class _Wrapper:
     def lean(self):
         g = ".none" if self.guard is None else "(.%s)" % self.guard
         g = "%s, [%s], %s" % (self.ptrs(), ", ".join("(%d, %d)" % q for q in sorted(self.same)), g)
+        # what is returned: the future / the local object the data were received into / the delegation's return value
+        if self.fut and self.returned != self.fut:
+            self.fail("the future is not returned")
+        if self.locals and self.returned not in self.locals:
+            self.fail("the local result object is not returned")
+        if self.retvar and self.returned != self.retvar:
+            self.fail("the return value of the delegation is not returned")
         if self.name == "rrecv_4":
-            want = [("MPI_Mprobe", ["source_rank", "tag", "communicator", "&_message", "status"]),
-                    ("MPI_Get_count", ["status", "mpi_data.type()", "&size"]),
-                    ("MPI_Mrecv", ["mpi_data.ptr()", "mpi_data.size()", "mpi_data.type()", "&_message", "status"])]
-            ns = [_nows(x) for x in self.stmts]
-            if self.calls != want or self.extra != RRECV_EXTRA or "mpi_data" not in self.obj \
-                    or ns.index("mpi_data.resize(size)") != ns.index("MPI_Get_count(status,mpi_data.type(),&size)") + 1 \
-                    or ns.index("MPI_Mrecv(mpi_data.ptr(),mpi_data.size(),mpi_data.type(),&_message,status)") != ns.index("mpi_data.resize(size)") + 1:
-                self.fail("probe / count / resize / receive sequence changed")
-            return "⟨%s, .probeCountResizeRecv %d, %s⟩" % (lean_str(self.name), self.obj["mpi_data"], g)
+            views = [k for k, v in self.obj.items() if k not in self.locals and not k.startswith("future.") and v == 1]
+            if len(views) != 1:
+                self.fail("no MPIData view of the received object")
+            v = "view1"
+            want = [("MPI_Mprobe", ["peer", "tag", "communicator", "&message", "status"]),
+                    ("MPI_Get_count", ["status", v + ".type()", "&count"]),
+                    ("resize", [v, "count"]),
+                    ("MPI_Mrecv", [v + ".ptr()", v + ".size()", v + ".type()", "&message", "status"])]
+            if self.events != want or self.calls or self.deleg or self.extra:
+                self.fail("probe / count / resize / receive sequence changed: %r" % (self.events,))
+            if len(self.statusobj) != 1 or len(self.msg) != 1 or len(self.cntvar) != 1:
+                self.fail("probe / count / resize / receive sequence changed (locals)")
+            if self.obj.get(self.returned) != 1:
+                self.fail("the received object is not returned")
+            return "⟨%s, .probeCountResizeRecv %d, %s⟩" % (lean_str(self.name), 1, g)
         if self.name == "allreduce_2":
-            if self.extra != ALLREDUCE2_EXTRA or self.calls or not self.deleg:
+            if self.extra != ALLREDUCE2_EXTRA or self.calls or not self.deleg or not self.retvar:
                 self.fail("temporary / copy back sequence changed")
+            if self.order != [ALLREDUCE2_EXTRA[0], "deleg"] + ALLREDUCE2_EXTRA[1:]:
+                self.fail("temporary / delegation / copy back / release out of order")
             return "⟨%s, .delegateCopyBack %s [%s], %s⟩" % (lean_str(self.name), lean_str(self.deleg[0]), ", ".join(self.deleg[1]), g)
         if self.extra:
             self.fail("unexpected statements")
@@ -1211,40 +1402,71 @@ def lean_name(n):
     return n + "_" if n in ("in", "out", "end", "from", "to", "at", "do", "then", "else", "fun", "let", "have", "show") else n
 
 
-def expr(text, nats, loopvar=None):
-    """sum/difference of atoms {number, ident, *ident, loop variable} -> Lean Nat expression"""
+def expr(text, nats, loopvar=None, consts=None):
+    """sum/difference of atoms {number, ident, *ident, loop variable, const local} -> Lean Nat expression in canonical form:
+    literals, then names in alphabetical order, the loop variable last, subtracted terms at the end (R5: `i + *displ` and
+    `*displ + i` give the same text; a `const` local that is initialised once from such an expression is replaced by it)"""
+    consts = consts or {}
     text = text.strip()
+    while text.startswith("(") and balanced(text, 0, "(", ")") == len(text):
+        text = text[1:-1].strip()
     toks = re.findall(r"\*?\s*%s|\d+|[-+]" % IDENT, text)
     if "".join(toks).replace(" ", "") != text.replace(" ", ""):
         raise TranslateError("index/bound expression not in the grammar: %r" % text)
-    out = []
+    pos, neg = [], []
+    sign = +1
     expect_atom = True
     for t in toks:
         t = t.replace(" ", "")
         if t in "+-":
             if expect_atom:
                 raise TranslateError("unary sign in %r" % text)
-            out.append(t)
+            sign = +1 if t == "+" else -1
             expect_atom = True
             continue
         if not expect_atom:
             raise TranslateError("juxtaposed atoms in %r" % text)
         expect_atom = False
         if t.isdigit():
-            out.append(t)
+            p_, n_ = [(0, int(t), t)], []
         else:
             nm = t.lstrip("*")
             if nm == loopvar:
                 if t.startswith("*"):
                     raise TranslateError("dereferenced loop variable in %r" % text)
-                out.append(nm)
+                p_, n_ = [(2, 0, nm)], []
+            elif nm in consts and not t.startswith("*"):
+                p_, n_ = consts[nm]
             elif nm in nats:
-                out.append(lean_name(nm))
+                p_, n_ = [(1, 0, lean_name(nm))], []
             else:
                 raise TranslateError("unknown name %s in %r" % (nm, text))
+        if sign > 0:
+            pos += p_
+            neg += n_
+        else:
+            pos += n_
+            neg += p_
     if expect_atom:
         raise TranslateError("dangling operator in %r" % text)
-    return " ".join(out)
+    return pos, neg
+
+
+def render(pn):
+    pos, neg = pn
+    lit = sum(q[1] for q in pos if q[0] == 0)
+    names = sorted(q for q in pos if q[0] != 0)
+    nlit = sum(q[1] for q in neg if q[0] == 0)
+    nnames = sorted(q for q in neg if q[0] != 0)
+    if nlit and lit >= nlit:
+        lit, nlit = lit - nlit, 0
+    items = ([str(lit)] if lit or not names else []) + [q[2] for q in names]
+    if not items:
+        raise TranslateError("expression without a positive term")
+    out = " + ".join(items)
+    for q in ([(0, nlit, str(nlit))] if nlit else []) + nnames:
+        out += " - " + q[2]
+    return out
 
 
 def translate_body(name, params, body):
@@ -1274,32 +1496,6 @@ def translate_body(name, params, body):
     m = re.fullmatch(r"return \{ ?%s ?\} ?;" % fwd, b)
     if m and unf(m, 1) in bufs:
         return lean_name(unf(m, 1)), "value"
-    # for (int i=S; i<B; i++) L[IL] = R[IR]; return 0;
-    m = re.fullmatch(r"for ?\( ?int (%s) ?= ?([^;]+); ?(%s) ?< ?([^;]+); ?(?:(%s) ?\+\+|\+\+ ?(%s)) ?\) (%s) ?\[([^\]]+)\] ?= ?(%s) ?\[([^\]]+)\] ?; return 0 ?;"
-                     % (IDENT, IDENT, IDENT, IDENT, IDENT, IDENT), b)
-    if m:
-        v = m.group(1)
-        if m.group(3) != v or (m.group(5) or m.group(6)) != v:
-            raise TranslateError("%s: loop variable mismatch" % name)
-        L, R = m.group(7), m.group(9)
-        if L not in bufs or R not in bufs:
-            raise TranslateError("%s: loop assigns %s[..] = %s[..], not buffers" % (name, L, R))
-        return ("DV.C07.Seq.forCopy e %s %s (%s) (%s) (fun %s => %s) (fun %s => %s)"
-                % (lean_name(R), lean_name(L), expr(m.group(2), nats), expr(m.group(4), nats), v, expr(m.group(8), nats, v),
-                   v, expr(m.group(10), nats, v))), "loop"
-    # pointer walk: for(const T* end=S+N; S < end; ++S, ++D) *D=*S; return 0;
-    m = re.fullmatch(r"for ?\( ?const T ?\* ?(%s) ?= ?(%s) ?\+ ?(%s) ?; ?(%s) ?< ?(%s) ?; ?\+\+(%s) ?, ?\+\+(%s) ?\) ?\* ?(%s) ?= ?\* ?(%s) ?; return 0 ?;"
-                     % ((IDENT,) * 9), b)
-    if m:
-        endv, S, N, S2, end2, i1, i2, D, S3 = m.groups()
-        if not (S == S2 == S3 and endv == end2 and {i1, i2} == {S, D} and S in bufs and D in bufs and N in nats):
-            raise TranslateError("%s: pointer loop not recognised" % name)
-        return ("DV.C07.Seq.forCopy e %s %s (0) (%s) (fun i => i) (fun i => i)" % (lean_name(S), lean_name(D), lean_name(N))), "loop"
-    # std::copy(in, in+len, out); return 0;
-    m = re.fullmatch(r"std::copy ?\( ?(%s) ?, ?(%s) ?\+ ?([^,]+), ?(%s) ?\) ?; return 0 ?;" % (IDENT, IDENT, IDENT), b)
-    if m and m.group(1) == m.group(2) and m.group(1) in bufs and m.group(4) in bufs:
-        return ("DV.C07.Seq.forCopy e %s %s (0) (%s) (fun i => i) (fun i => i)"
-                % (lean_name(m.group(1)), lean_name(m.group(4)), expr(m.group(3), nats))), "loop"
     # *(out.begin()) = fwd(in); return {fwd(out)};
     m = re.fullmatch(r"\* ?\( ?(%s)\.begin\(\) ?\) ?= ?%s ?; return \{ ?%s ?\} ?;" % (IDENT, fwd, fwd), b)
     if m and m.group(1) in bufs and unf(m, 2) in bufs and unf(m, 4) == m.group(1):
@@ -1312,7 +1508,108 @@ def translate_body(name, params, body):
     m = re.fullmatch(r"(%s) ?= ?%s ?; return \{ ?%s ?\} ?;" % (IDENT, fwd, fwd), b)
     if m and m.group(1) in bufs and unf(m, 2) in bufs and unf(m, 4) == m.group(1):
         return lean_name(unf(m, 2)), "value"
-    raise TranslateError("body of sequential %s/%d not in the statement grammar: %r" % (name, len(params), b[:160]))
+
+    # ---- [const locals] <one copy loop / std::copy / std::copy_n> return 0;
+    def bad(why):
+        raise TranslateError("body of sequential %s/%d not in the statement grammar (%s): %r" % (name, len(params), why, b[:160]))
+    sts = _stmts(b)
+    if len(sts) < 2 or sts[-1] != "return 0":
+        bad("does not end in one copy statement and `return 0;`")
+    consts = {}
+    for st in sts[:-2]:
+        m = re.fullmatch(r"const (?:int|auto|std::size_t|size_t|unsigned|unsigned int) (%s) ?= ?(.*)" % IDENT, st)
+        if not m or m.group(1) in consts or m.group(1) in nats or m.group(1) in bufs:
+            bad("statement in front of the copy: " + st)
+        consts[m.group(1)] = expr(m.group(2), nats, None, consts)
+    st = sts[-2]
+
+    def ex(t, v=None):
+        return expr(t, nats, v, consts)
+
+    def forcopy(R, L, start, bound, v, il, ir):
+        return ("DV.C07.Seq.forCopy e %s %s (%s) (%s) (fun %s => %s) (fun %s => %s)"
+                % (lean_name(R), lean_name(L), render(start), render(bound), v, render(il), v, render(ir))), "loop"
+
+    def based(t):
+        """`buf` or `buf + offset` / `offset + buf` -> (buffer, offset expression)"""
+        t = _unparen(_nows(t))
+        parts = re.split(r"\+", t)
+        bs_ = [q for q in parts if q in bufs]
+        if len(bs_) != 1 or "-" in t:
+            bad("pointer argument " + t)
+        rest = [q for q in parts if q != bs_[0] or parts.count(q) > 1]
+        return bs_[0], ex("+".join(rest) if rest else "0")
+
+    ZERO = ([(0, 0, "0")], [])
+    I = ([(2, 0, "i")], [])
+
+    def add(a, c):
+        return a[0] + c[0], a[1] + c[1]
+    # for (int i=S; i<B; i++) L[IL] = R[IR];
+    m = re.fullmatch(r"for ?\( ?(?:int|std::size_t|size_t|unsigned|unsigned int) (%s) ?= ?([^;]+); ?([^;]+); ?([^;)]+)\) ?(.*)" % IDENT, st)
+    if m:
+        v, start, cond, incr, lb = m.groups()
+        if v in nats or v in bufs or v in consts:
+            bad("loop variable shadows a name")
+        c = _nows(cond)
+        cm = re.fullmatch(r"%s(?:<|!=)(.*)" % re.escape(v), c)
+        cm2 = re.fullmatch(r"(.*)(?:>|!=)%s" % re.escape(v), c)
+        if cm:
+            bound = cm.group(1)
+        elif cm2:
+            bound = cm2.group(1)
+        else:
+            bad("loop condition " + cond)
+        if _nows(incr) not in ("%s++" % v, "++%s" % v, "%s+=1" % v):
+            bad("loop increment " + incr)
+        lb = lb.strip()
+        if lb.startswith("{"):
+            if balanced(lb, 0) != len(lb):
+                bad("code after the loop body")
+            inner = _stmts(lb[1:-1])
+            if len(inner) != 1:
+                bad("loop body with %d statements" % len(inner))
+            lb = inner[0]
+        am = re.fullmatch(r"(%s) ?\[([^\]]+)\] ?= ?(%s) ?\[([^\]]+)\]" % (IDENT, IDENT), lb) or \
+            re.fullmatch(r"\* ?\( ?(%s) ?\+([^()]+)\) ?= ?\* ?\( ?(%s) ?\+([^()]+)\)" % (IDENT, IDENT), lb)
+        if not am:
+            bad("loop body " + lb)
+        L, il, R, ir = am.groups()
+        if L not in bufs or R not in bufs:
+            raise TranslateError("%s: loop assigns %s[..] = %s[..], not buffers" % (name, L, R))
+        return forcopy(R, L, ex(start), ex(bound), v, ex(il, v), ex(ir, v))
+    # pointer walk: for(const T* end=S+N; S < end; ++S, ++D) *D=*S;
+    m = re.fullmatch(r"for ?\( ?(?:const T ?\*|const auto ?\*|auto) ?(?:const )?(%s) ?= ?(%s) ?\+ ?(%s) ?; ?([^;]+); ?([^;)]+)\) ?\{? ?\* ?(%s) ?= ?\* ?(%s) ?;? ?\}?"
+                     % ((IDENT,) * 5), st)
+    if m:
+        endv, S, N, cond, incr, D, S3 = m.groups()
+        c = _nows(cond)
+        incs = sorted(_nows(q) for q in split_top(incr))
+        ok_inc = all(re.fullmatch(r"\+\+%s|%s\+\+" % (IDENT, IDENT), q) for q in incs) and \
+            sorted(q.replace("++", "") for q in incs) == sorted([S, D])
+        if not (S == S3 and c in ("%s<%s" % (S, endv), "%s!=%s" % (S, endv), "%s>%s" % (endv, S), "%s!=%s" % (endv, S))
+                and ok_inc and S in bufs and D in bufs and S != D and N in nats):
+            raise TranslateError("%s: pointer loop not recognised" % name)
+        return forcopy(S, D, ZERO, ex(N), "i", I, I)
+    # std::copy(in+o, in+o+len, out+p);  std::copy_n(in+o, len, out+p);
+    m = re.fullmatch(r"std::(copy|copy_n) ?\((.*)\)", st)
+    if m:
+        args = split_top(m.group(2))
+        if len(args) != 3:
+            bad("std::%s with %d arguments" % (m.group(1), len(args)))
+        R, ro = based(args[0])
+        L, lo = based(args[2])
+        if m.group(1) == "copy_n":
+            n = ex(args[1])
+        else:
+            a0, a1 = _nows(args[0]), _nows(args[1])
+            if not a1.startswith(a0 + "+"):
+                bad("std::copy: the end of the range is not <first> + <count>")
+            n = ex(a1[len(a0) + 1:])
+        if R == L:
+            bad("copy within one buffer")
+        return forcopy(R, L, ZERO, n, "i", add(lo, I), add(ro, I))
+    bad("copy statement " + st)
 
 
 COLLECTIVES = ["sum", "prod", "min", "max", "broadcast", "ibroadcast", "gather", "igather", "gatherv", "scatter", "iscatter",
